@@ -133,9 +133,16 @@ def w_c11(seed):
     # different units of EXACTLY equal size (bit-identical conversion factors): the choice of the common unit must not depend on the operand order
     for a, b in [("(29 kph)", "(29 km/h)"), ("(23 mph)", "(23 mile/hour)"), ("(123.456 mL)", "(123.456 cm^3)"), ("(0.7 kph)", "(0.7 km/h)"), ("(3.3 Hz)", "(3.3 Bq)"), ("(1.1 L)", "(1.1 dm^3)")]:
         exprs.append((a, b))
+    # two user-defined units with the SAME definition: they differ in nothing but their names
+    for a, b in [("(0.7 vx_aa)", "(0.7 vx_bb)"), ("(29 vx_aa)", "(29 vx_bb)"), ("(3 vx_bb)", "(3 vx_aa)"), ("(0.1 vx_aa)", "(0.3 vx_bb)")]:
+        exprs.append((a, b))
     inputs = []
+    defs = "unit vx_aa = 0.1 m\nunit vx_bb = 0.1 m\n"
     for a, b in exprs:
-        inputs.append(f"[{a} == {b}, {b} == {a}, {a} != {b}, {a} < {b}, {b} > {a}, {a} <= {b}, {b} >= {a}, {a} > {b}]")
+        pre = ""
+        if "vx_aa" in a + b and defs:
+            pre, defs = defs, ""
+        inputs.append(pre + f"[{a} == {b}, {b} == {a}, {a} != {b}, {a} < {b}, {b} > {a}, {a} <= {b}, {b} >= {a}, {a} > {b}]")
     got, raw = session(inputs)
     for i, (a, b) in enumerate(exprs):
         r = got.get(i, [])
@@ -180,6 +187,12 @@ def w_c12(seed):
     for a, b in [("sqrt(4 km)", "sqrt(9 m)"), ("cbrt(8 L)", "cbrt(27 mL)"), ("(3 V / sqrt(1 Hz))", "(5 mV / sqrt(1 Hz))"), ("(2 / km)", "(3 / m)"), ("(1 / sqrt(4 s))", "(1 / sqrt(9 ms))"),
                  ("(2 m^2 / s)", "(3 cm^2 / s)"), ("(1 kg / m^3)", "(1 g / cm^3)"), ("(3 km/h)", "(2 m/s)"), ("(2 N m)", "(3 N cm)")]:
         inputs.append(f"\"{{{a} + {b}}} | {{{b} + {a}}} | {{{a} - {b}}} | {{-({b} - {a})}}\"")
+        meta.append((a, b))
+    # two user-defined units with the SAME definition (equal size: only the subtraction clause applies)
+    defs = "unit vx_aa = 0.1 m\nunit vx_bb = 0.1 m\n"
+    for a, b in [("(0.7 vx_aa)", "(0.7 vx_bb)"), ("(29 vx_aa)", "(29 vx_bb)"), ("(3 vx_bb)", "(0.1 vx_aa)")]:
+        inputs.append(defs + f"\"{{{a} + {b}}} | {{{a} + {b}}} | {{{a} - {b}}} | {{-({b} - {a})}}\"")
+        defs = ""
         meta.append((a, b))
     got, raw = session(inputs)
     for i, (a, b) in enumerate(meta):
@@ -409,7 +422,7 @@ def w_c02(seed):
 C08_INPUTS = ["30 mpg * 2 gallon", "1 swimmingpool / 1 footballfield", "sqrt(1 kg) * planck_mass", "print(30 mpg * 10 L)", '"{planck_length * sqrt(1 m)}"', "mod(0, 7 m)", "atan2(0, 1 m)", "mod(7 m, 0)", "mod(5 m, inf)", "atan2(1 m, inf)", "mod(7 m, 2 cm)", "atan2(1 m, 1 cm)", "mod(NaN, 1 m)", "atan2(NaN, 2 s)",
               "1 / 0", "(-1)!", "2.5!", "mod(7, 0)", "sqrt(-1)", "parse(\"\")" if False else "1 m + 2 s", "[] |> head", "element_at(5, [1])", "str_slice(5, 2, \"ab\")",
               "unit vx_foo: Length\nsin(vx_foo/m)", "unit vx_foo: Length\ngamma(vx_foo/m)", "unit vx_foo: Length\n(vx_foo/m)!", "unit vx_foo: Length\nround(vx_foo/m)", '"abc\\', '"x = {1}\\', 'let vx_p: Scalar = parse("\\"1\\\\")', ".5e", "1_", "1.5.2", "0x", ".", "..", "1e+", 
-              "1e400", "2^1e10", "(2 m)^(1/0)", "10^400 m -> cm", "unit_of(0)", "value_of(inf m)"]
+              "m^(-(-2^126*2))", "(2 m)^(-(2^127))", "1e400", "2^1e10", "(2 m)^(1/0)", "10^400 m -> cm", "unit_of(0)", "value_of(inf m)"]
 
 
 def w_c08(seed):
